@@ -131,7 +131,10 @@ def gen(rng, depth, in_union=False):
     if k == "Union":
         return f"typing.Union[{g()}, {g()}]"
     if k == "Literal":
-        vals = rng.sample(['"a|b"', "'[x]'", '"int | str"', "1", "True", "None", "'list[int]'", '"|"', "-1"], rng.choice([1, 2, 3]))
+        vals = rng.sample(['"a|b"', "'[x]'", '"int | str"', "1", "True", "None", "'list[int]'", '"|"', "-1",
+                            # string values whose spelling matters character by character: runs of blanks, a real tab / newline escape,
+                            #   quotes inside quotes, a backslash
+                            '"a  |  b"', "'x\ty'", "'p   [q]'", "'tab\there'", '"it\'s"', "'back\\\\slash'", "'line\\nbreak'", '" lead"', '"trail "'], rng.choice([1, 2, 3]))
         return f"{rng.choice(['Literal', 'typing.Literal'])}[{', '.join(vals)}]"
     if k == "Callable":
         return f"Callable[[{', '.join(g() for _ in range(rng.choice([0, 1, 2])))}], {g()}]"
